@@ -77,12 +77,11 @@ Qed.
 
 (* when an address the Service held before (in memory, or recorded in its
    status) is no longer held although it still belongs to a pool, SetBalancer
-   answers ReprocessAll - whether or not the Service object needed an update -
-   unless the status write it attempted failed (then it answers Error and the
-   request is retried, C06) *)
+   answers ReprocessAll - whether or not the Service object needed an update, and
+   whether or not the status write it attempted succeeded (fix F27: before it, a
+   failed write answered Error and the request to reprocess was lost) *)
 Theorem release_triggers_reload c s o k oc :
   set_balancer rank c s (Some o) k = Some oc -> c_have_pools c = true ->
-  (oc_write oc = None \/ k_write k = true) ->
   (releases (c_mem c) (c_mem (oc_state oc)) s (ips_of (c_mem c) s) \/
    releases (c_mem c) (c_mem (oc_state oc)) s (o_status o)) ->
   oc_sync oc = ReprocessAll.
@@ -99,10 +98,10 @@ Proof.
     rewrite (subset_ips_false _ _ Hex). cbn.
     destruct (pool_for (by_name (s_pools (cv_mem v))) (x :: l)); [reflexivity|congruence]. }
   destruct (negb (negb (ips_eqb (cv_status v) (o_status o)) || negb (opt_pool_eqb (cv_annot v) (o_annot o)))).
-  - injection H as <-. cbn. intros _ Hrel.
+  - injection H as <-. cbn. intros Hrel.
     destruct Hrel as [Hr|Hr]; apply Hrel' in Hr; rewrite Hr; cbn; rewrite ?orb_true_r; reflexivity.
-  - injection H as <-. cbn. intros [Hw|Hw] Hrel; [discriminate|]. rewrite Hw.
-    destruct Hrel as [Hr|Hr]; apply Hrel' in Hr; rewrite Hr; cbn; rewrite ?orb_true_r; reflexivity.
+  - injection H as <-. cbn. intros Hrel.
+    destruct Hrel as [Hr|Hr]; apply Hrel' in Hr; rewrite Hr; cbn; rewrite ?orb_true_r; destruct (k_write k); reflexivity.
 Qed.
 
 (* a deleted Service that still holds addresses is released and asks for a re-sync *)
